@@ -21,11 +21,36 @@ def drive_and_judge(ctx, scs, shards):
     return s, nlines
 
 
+RIDER_FORMULAS = ["Exit.SyncedTrueNeedsCompose", "Exit.SyncedFalse", "Paused.Condition", "Deleting.Condition",
+                  "Deleting.Condition.AfterFinalizerRemoval"]
+
+
+def rider_lifecycle(ctx):
+    """The conditions written by the XR reconciler's early exits (paused, deleting, finalizer / selection / revision /
+    configuration failures): module XRLifecycle (check X03).  Synced=True is written only after the Composer returned without
+    error (or by the deletion path), every other status write says Synced=False, a deleting XR reports Ready=False."""
+    from checks import x03
+    sub = ctx.sub("xrlifecycle")
+    scs, st, tr = [], 0, 0
+    for name, n in ([("quick", 350), ("quick_user", 250)] if ctx.quick else [("quick", 6459), ("quick_user", 7660), ("thorough_f2", 6000)]):
+        mc = sub.model_check(x03.MODULE, "%s_%s.cfg" % (x03.MODULE, name), sub="mc_" + name, workers=4, timeout=900)
+        scs += [{"id": "%s-%s-%07d" % (PID, name, i), "hist": h} for i, h in sub.sample_lines(mc["emitted_file"], n, mc["emitted"])]
+        st += mc["states"]
+        tr += mc["transitions"]
+    s, n, _ = x03.drive_and_judge(sub, scs, sweep=0, shards=4, counts=False)
+    for v in sub.violations:
+        if v["formula"] in RIDER_FORMULAS:
+            ctx.violations.append(v)
+    return dict(states=st, transitions=tr, runs=s["runs"], events=n, formulas=RIDER_FORMULAS)
+
+
 def run(ctx):
     mc = ctx.model_check("MCConditions", "MCConditions_quick.cfg" if ctx.quick else "MCConditions_thorough.cfg", workers=4, timeout=300)
     scs = [{"id": "%s-%07d" % (PID, i), "hist": h} for i, h in ctx.sample_lines(mc["emitted_file"], 10 ** 9, mc["emitted"])]
     s, nlines = drive_and_judge(ctx, scs, shards=10)
+    lc = rider_lifecycle(ctx)
     ctx.cov.update(dict(
+        lifecycle_rider=lc,
         states=mc["states"], transitions=mc["transitions"], traces_validated_against_impl=s["runs"], samples=s["samples"][:2],
         vectors_emitted=mc["emitted"], vectors_replayed=s["scenarios"], events=nlines, monitor_formulas=FORMULAS, exhaustive=True,
         checker_cmd="tlc MCConditions (vectors) -> harness/drivers/xrcompose -conds on /repo -> tlc MonConditions",
@@ -40,5 +65,10 @@ def run(ctx):
 def replay(ctx, path):
     with open(path) as f:
         sc = json.load(f)
+    if str(sc.get("id", "")).startswith(PID + "-quick") or str(sc.get("id", "")).startswith(PID + "-thorough"):      # a scenario of the lifecycle rider
+        from checks import x03
+        x03.replay(ctx, path)
+        ctx.violations = [v for v in ctx.violations if v["formula"] in RIDER_FORMULAS]
+        return
     s, nlines = drive_and_judge(ctx, [sc], shards=1)
     ctx.cov.update(dict(states=1, transitions=1, traces_validated_against_impl=s["runs"], samples=[sc], events=nlines))
